@@ -128,6 +128,14 @@ claim("C01", "other",
       "symbolic execution of the real construction code on z3-valued factors + contract stub for pivoted QR + z3",
       "DESIGN.md section 1, C01")
 
+claim("C07", "other",
+      "The batched expectations() fast path (hash-keyed environment cache) against expectation() and the dense definition for every sharing pattern of 2-3 operators over 2-3 "
+      "sites (solver-valued state tensors and operator site matrices, optional independent bra, list and reversed list); expectation / transition amplitude incl. complex "
+      "data on 2 sites; occupations; one-site, two-site, electronic reduced density matrices against partial traces; MpDm expectation path.",
+      "Entropies (eigh/log of float spectra) are NOT covered; the scalar prefactor is not part of expectation values by design; complex states only on 2 sites.",
+      "symbolic execution with enumerated cache-sharing patterns; polynomial identities decided by normal form + z3",
+      "DESIGN.md section 1, C07")
+
 for pid in ["C%02d" % i for i in range(1, 21)]:
     if pid not in CHECKS:
         NA[pid] = "check not built yet (build in progress; see DESIGN.md)"
